@@ -78,4 +78,5 @@ const (
 	UserTypeIsNotAnObject                               = "the user type is not an object"
 	ProcessTypeErr                                      = "process type"
 	FailedToComputeScannersHash                         = "failed to compute the scanner's hash"
+	ThereIsNoDirectiveForThisLexeme                     = "there is no directive to which this could belong"
 )
